@@ -16,6 +16,10 @@ CTL_NOTE = NOTE_COMMON + ("The transition table of the line machine is regenerat
             "interpreted by the model; handlers/matchers and the queue layer are hand-modelled. Twisted's LineOnlyReceiver framing is modelled as a "
             "byte automaton; MAX_LENGTH is not modelled. ")
 
+TS_NOTE = NOTE_COMMON + ("Events enter the model as lines split on blanks (line.split() is trusted); int()/rfind(':') of well-formed fields are modelled, "
+           "maybe_ip_addr and the AddrMap lookup of target hosts are not (addresses are compared as text). Router objects are compared by id_hex. "
+           "Errors logged or raised are compared by kind. ")
+
 CHECKS = {
     'C01': dict(
         text=("For EVERY input sequence (arbitrary bytes, arbitrary interleaving with submits): C01_fifo_once (firing order ++ pending = submission "
@@ -144,6 +148,47 @@ CHECKS = {
              "An existing entry 'auto'/'0' with no port requested through TorConfig.create_socks_endpoint is outside the quantifier (the port Tor chose cannot be read off the line).",
         technique="Lean 4: decision theorems on the port-selection functions + induction over the fallback list (generated constant); differential correspondence (exhaustive product)",
         ref='§4 C18'),
+    'C07': dict(
+        text=("C07_attach_inv (for EVERY input sequence from the empty state — events of any content, also ones Tor would not send, listener "
+              "registrations, waits, close requests, answers, attacher changes: a stream that says it is on a circuit object is in that object's "
+              "list exactly once, a stream in a list says it is on that circuit, no stream is under two circuits, both dictionaries point at existing "
+              "objects; by induction with Att.step), C07_circuits_listed / C07_streams_listed (after any CIRC / STREAM line the object is listed under its "
+              "id exactly when the status is not CLOSED/FAILED, as the object listed before or a new one for an unlisted — possibly reused — id; no other id "
+              "changes; circuit events never touch streams and vice versa: C07_circ_event_frame), C07_circuit_latest (the object carries the line's "
+              "status, flags, id, and PURPOSE/BUILD_FLAGS when present; no other object's record changes), Att.detach (after DETACHED/CLOSED/FAILED/circuit 0 "
+              "the stream is under no circuit — also when the circuit object had been closed first). Correspondence: every object ever created is dumped "
+              "after every operation and compared by object identity."),
+        note=TS_NOTE + "The hop path and the stream attributes (target, source) are in the model and compared in the correspondence run; they are not covered by a theorem.",
+        technique="Lean 4: two-sided attachment invariant by induction over all input sequences of the live-state model + per-event listing theorems; differential correspondence with object identity",
+        ref='§4.1, §4 C07'),
+    'C08': dict(
+        text=("C08_round_circuit / C08_round_stream / C08_round_count (a notification round reaches exactly the listeners registered when it starts, once each, "
+              "in registration order, whatever listeners do inside their callbacks; one that stops listening from inside is gone afterwards and nobody else), "
+              "listen_nodup, C08_flags_both_cases, C08_terminal_event (a CLOSED/FAILED line: pending close requests complete, when_closed waits complete, "
+              "when_built waits fail unless the circuit was BUILT before, then every listener hears closed/failed once with both-case flags — in that order), "
+              "C08_built_event, C08_when_built_now (immediate success iff BUILT or built before, immediate failure iff closed first, otherwise queued), "
+              "C08_observer_once (a SingleObserver reaches exactly its waiters on the first fire and nobody on a later one), C08_close_shared / "
+              "C08_stream_close_shared (first request sends the command, later ones are chained to the same pending close), C08_close_order (acknowledged "
+              "first: waits for the event; event first: completes with the acknowledgement; rejection fails it), C08_fresh_deferred. Correspondence: "
+              "listeners/waits/closes at every position, answers before or after the CLOSED event."),
+        note=TS_NOTE + "'Each wait completes exactly once' is proved per container (observer, pending close) and per request kind; the global statement over whole runs "
+             "(no Deferred id is ever fired twice) is checked by the correspondence run on every case, not by a run-level theorem.",
+        technique="Lean 4: theorems on the notification rounds and wait containers of the live-state model for all listener behaviours; differential correspondence",
+        ref='§4.1, §4 C08'),
+    'C09': dict(
+        text=("C09_decision (the table: DO_NOT_ATTACH nothing; None ATTACHSTREAM sid 0; a listed BUILT circuit ATTACHSTREAM sid cid; anything else one error report "
+              "and nothing sent; never two lines), C09_maybe_attach (no attacher or a .exit target: nothing; else exactly one consultation and at most one line), "
+              "C09_known_stream_silent (a STREAM line about a stream already listed consults nobody and sends nothing), C09_circ_event_sends_nothing, "
+              "C09_single_slot / C09_install (same attacher: no-op; different: refused; none: SETCONF __LeaveStreamsUnattached=0; install: =1), "
+              "C09_via_circuit (a stream whose local source address and port were registered goes to exactly that circuit, consuming the registration, or nowhere "
+              "when the circuit is gone; any other stream is left to Tor and touches no registration), C09_priority_order (PriorityAttacher goes through a sorted "
+              "rearrangement of its entries), C09_priority_first (first non-None answer wins, nobody after it is asked). Correspondence: recording attachers with "
+              "immediate and Deferred answers of every kind, real stream_via() connections over a fake SOCKS endpoint, and the whole product of small "
+              "PriorityAttacher histories."),
+        note=TS_NOTE + "Coroutine answers share the maybe_coroutine path with Deferred ones and are not generated separately. connect() waiting for a circuit that is not yet "
+             "BUILT is not modelled (the generator registers via-circuit connections on BUILT circuits only).",
+        technique="Lean 4: decision-table and single-slot theorems on the live-state model, matching theorem for the via-circuit table, sortedness/first-answer theorems for PriorityAttacher; differential correspondence (partly exhaustive)",
+        ref='§4.1, §4 C09'),
     'C10': dict(
         text=("C10_silent_until_save (only save emits a SETCONF), C10_save_one_setconf (none when nothing is pending, else exactly one), "
               "C10_args_exact / C10_scalar_once / C10_list_in_order / C10_unchanged_not_named (the arguments naming an option are exactly those of "
